@@ -51,7 +51,7 @@ impl<T> OwnView for BoxedFn<T> { open spec fn own(&self) -> Own { self.captured(
 pub trait BoxNew<T>: Sized { spec fn boxed_ok(t: &T, r: &Self) -> bool; fn box_new_(t: T) -> (r: Self) ensures Self::boxed_ok(&t, &r); }
 pub fn box_new<B: BoxNew<T>, T>(t: T) -> (r: B) ensures B::boxed_ok(&t, &r) { B::box_new_(t) }
 // a closure literal passed by value (rule L3): what it captured and which literal it is
-#[verifier::external_body] pub struct ClosureObj { x: u8 }
+#[verifier::external_body] #[derive(Clone, Copy)] pub struct ClosureObj { x: u8 }   // (Copy: move-only use of FnOnce closures is already enforced by rustc on the real code)
 // captured(): joined view of the captures; code(): which closure literal; cap0..cap2(): ghost ids of up to three captures the contracts name
 impl ClosureObj { pub uninterp spec fn captured(&self) -> Own; pub uninterp spec fn code(&self) -> int; pub uninterp spec fn cap0(&self) -> int; pub uninterp spec fn cap1(&self) -> int; pub uninterp spec fn cap2(&self) -> int; pub uninterp spec fn flag(&self) -> bool; }
 impl OwnView for ClosureObj { open spec fn own(&self) -> Own { self.captured() } }
